@@ -597,7 +597,7 @@ class StyleElement(TTMLElement):
         model_prop, model_value = prop.to_model(style_ctx, xml_elem)
         style_ctx.styles[model_prop] = model_value
 
-      except ValueError:
+      except (ValueError, KeyError):
 
         LOGGER.error("Error reading style property: %s", prop.__name__)
 
@@ -670,7 +670,7 @@ class InitialElement(TTMLElement):
 
         initial_ctx.doc.put_initial_value(model_prop, model_value)
 
-      except (ValueError, TypeError):
+      except (ValueError, TypeError, KeyError):
 
         LOGGER.error("Error reading style property: %s", prop.__name__)
 
@@ -754,7 +754,7 @@ class ContentElement(TTMLElement):
 
           self.model_element.set_style(model_prop, model_value)
 
-        except ValueError:
+        except (ValueError, KeyError):
 
           LOGGER.error("Error reading style property: %s", prop.__name__)
 
@@ -783,7 +783,7 @@ class ContentElement(TTMLElement):
               )
             )
             break
-          except ValueError:
+          except (ValueError, KeyError):
             LOGGER.error("Error reading style property: %s", prop.__name__)
 
     def process_lang_attribute(self, parent_ctx: TTMLElement.ParsingContext, xml_elem):
